@@ -304,8 +304,8 @@ func universeSoundness(n int) []string {
 func SelfTest() int {
 	rc := 0
 	for name, bad := range map[string][]string{
-		"engine examples":                     engineExamples(),
-		"engine introspection rebuilds":       introspectionRoundTrip(60),
+		"engine examples":                      engineExamples(),
+		"engine introspection rebuilds":        introspectionRoundTrip(60),
 		"universe projection = monolith facts": universeSoundness(40),
 	} {
 		if len(bad) == 0 {
